@@ -687,6 +687,24 @@ def reference_histories(kind, other):
     return out
 
 
+def meta_sweep_cases(rng, cid0, lo, hi):
+    """One-frame acquisitions whose user metadata runs through every length lo..hi-1: the first frame's description (and
+    metadata.json) passes through every length in a window - buffer-size boundaries of the writer included."""
+    out = []
+    for n, L in enumerate(range(lo, hi)):
+        kind = "tiff" if n % 3 else "tiff-json"
+        body = "".join(rng.choice("abcdefghijklmnopqrstuvwxyz0123456789 _-") for _ in range(max(0, L - 8)))
+        meta = '{"k":"%s"}' % body if L >= 8 else "{}"
+        cid = cid0 + n
+        c = dict(id=cid, unit=0, fault=None, devs={0: kind}, paths={1: "x%d_m%s" % (cid, ext_of(kind))}, metas={1: meta}, ops=[], expect=None,
+                 origin="metasweep")
+        fr = [fr_simple(i) for i in range(1 + n % 2)]     # fixed ids and timestamps: the description length grows with L alone
+        c["ops"] = [dict(op="open", d=0), dict(op="set", d=0, pid=1, form="plain", mid=1, sx=1, sy=1), dict(op="start", d=0),
+                    dict(op="append", d=0, frames=fr), dict(op="stop", d=0), dict(op="close", d=0)]
+        out.append(c)
+    return out
+
+
 def big_case(rng, cid, kind):
     """One acquisition whose file grows beyond 4 GiB: offsets, links and lengths above 2^32."""
     c = dict(id=cid, unit=0, fault=None, devs={0: kind}, paths={1: "x%d_big%s" % (cid, ext_of(kind))}, metas={1: METAS[0]}, ops=[], expect=None,
@@ -886,8 +904,10 @@ def main(prop, tier):
         if drift and not thorough:
             n *= 3
         cases = [rnd_case(rng, 100000 + i, ["tiff", "tiff-json"], unit=0, scripts=(i % 2 == 0), maxz=2) for i in range(n)]
-        extra = run_cases(exe, cases, bdir, "rnd")
+        sweep = meta_sweep_cases(rng, 500000, 0, 4200 if thorough else 420)
+        extra = run_cases(exe, cases + sweep, bdir, "rnd")
         chk.set("random_histories", n)
+        chk.set("metadata_length_sweep", len(sweep))
     else:
         cid = 200000
         refs, todo = [], []
